@@ -125,12 +125,30 @@ def quote_ident(name):
     return '"%s"' % name
 
 
+def composite_key(desc):
+    """The first two columns, when the description asks for a composite
+    UNIQUE constraint and every pair of their values is distinct (each
+    column on its own may well repeat)."""
+    if desc.get('key') != 'unique' or len(desc['cols']) < 2:
+        return None
+    a, b = desc['cols'][0], desc['cols'][1]
+    pairs = [(sql_value(a['kind'], x), sql_value(b['kind'], y))
+             for (x, y) in zip(a['cells'], b['cells'])
+             if x is not None and y is not None]
+    if len(set(pairs)) != len(pairs):
+        return None
+    return [a['name'], b['name']]
+
+
 def create_db(desc, path):
     if os.path.exists(path):
         os.remove(path)
     con = sqlite3.connect(path)
     cols = ', '.join('%s %s' % (quote_ident(c['name']), c['decl'])
                      for c in desc['cols'])
+    key = composite_key(desc)
+    if key:
+        cols += ', UNIQUE(%s)' % ', '.join(quote_ident(k) for k in key)
     con.execute('CREATE TABLE t (%s)' % cols)
     rows = []
     for i in range(desc['n']):
